@@ -1,5 +1,5 @@
 """C08 — retry budget never grants more retries than it was funded."""
-from ..core import graph, peel, leaves, show
+from ..core import graph, peel, leaves, show, N
 from ..util import dominating_edges, cmp_on_edge
 from ..atomic import atomic_fields, check_word, sites, atomic_method, word_of, loads_in, CAS
 
@@ -195,6 +195,33 @@ def run(facts, tr, rep):
                         if g.edge_dominates(edge, cs.bb):
                             ok = True
                             detail = "subtracting CAS is dominated by the guard observed >= amount (%s)" % g.where(bb)
+                # the observed value may come from several places (the first load, or the value a failed exchange handed
+                # back): each of them passes its own `>= amount` test on every way to the exchange
+                alts = [peel(x) for x in leaves(peel(cur))]
+                if not ok and len(alts) > 1:
+                    all_ok = True
+                    for a in alts:
+                        root = a
+                        while root[0] in ("field", "downcast"):
+                            root = peel(root[1])
+                        if root[0] != "call":
+                            all_ok = False
+                            break
+                        start = tr.call_of(root).target
+                        passes = []
+                        for bb in range(g.n):
+                            sw = g.switch(bb)
+                            if sw is None or sw.kind != "bool":
+                                continue
+                            cond = peel(tr.operand(W, sw.cond, (bb, len(g.stmts(bb)))))
+                            if cond[0] == "binop" and cond[1] in ("Lt", "Ge") and peel(cond[2]) == a and _same_amount(cond[3], amt):
+                                passes.append((bb, sw.variants["false"]) if cond[1] == "Lt" else (bb, sw.variants["true"]))
+                        if start is None or not passes or cs.bb in g.reach([start], kinds=(N,), avoid_edges=passes):
+                            all_ok = False
+                            break
+                    if all_ok:
+                        ok = True
+                        detail = "every value the exchange may start from (first load, value handed back by a failed exchange) passes its own `>= amount` test on the way"
             rep.ob("C08.GUARD", "%s|%s|cas" % (W.crate.name, W.def_), ok, cs.where(), detail)
         # ... the same for a withdrawal written as `fetch_update(|cur| ..)`: the closure answers Some(cur - amount) only
         # under cur >= amount (or hands back `cur.checked_sub(amount)`); `cur > 0` with a saturating subtraction grants a
